@@ -13,9 +13,10 @@ open Sig
 set_option linter.unusedVariables false
 
 theorem wrapI_id (x : Int) (h : -(2^63) ≤ x ∧ x < 2^63) : wrapI x = x := by
-  unfold wrapI wrapS
-  have : (x + 2 ^ (64 - 1)) % 2 ^ 64 = x + 2^63 := Int.emod_eq_of_lt (by omega) (by omega)
-  simp at *; omega
+  unfold wrapI
+  have : (9223372036854775808 + x) % 18446744073709551616 = 9223372036854775808 + x :=
+    Int.emod_eq_of_lt (by omega) (by omega)
+  omega
 
 theorem capacity_mul_le (b : Buf) : b.ch * b.capacity ≤ b.cap := by
   unfold Buf.capacity
